@@ -7,6 +7,7 @@ import (
 	"bytes"
 	"encoding/json"
 	"fmt"
+	"github.com/cosmos/cosmos-sdk/types/module"
 	"os"
 	"path/filepath"
 	"strings"
@@ -109,6 +110,14 @@ func (r *Runner) ExportImport() (lines []string, ok bool, err error) {
 		harnessErr error
 	)
 	p := guard(func() {
+		// the SDK exports every module on a goroutine of its own, where a panic cannot be recovered and would end the
+		// whole run: the four modules of this repository are exported once here, on this goroutine, first
+		ectx := r.App.NewContext(true, r.header())
+		for _, name := range []string{"enterprise", "wrkchain", "beacon", "stream"} {
+			if m, ok := r.App.ModuleManager.Modules[name].(module.HasGenesis); ok {
+				m.ExportGenesis(ectx, r.App.AppCodec())
+			}
+		}
 		exp, err := r.App.ExportAppStateAndValidators(false, nil, nil)
 		if err != nil {
 			panic(fmt.Sprintf("export: %v", err))
